@@ -20,6 +20,7 @@ RULES = {
     "C15.R8": "AWQPackedTensor.pack/unpack delegate to the module packer/unpacker selected by the recorded packing with the recorded reorder flag, nothing re-positions the unpacked codes, and every reconstruction inside the class carries (packing, reorder) over unchanged",
     "C15.R9": "re-wrapping handlers: a QBitsTensor handler that rebuilds `t.__class__(...)` from `op(t._data)` is only registered for ops under which AWQPackedTensor stays packed (its __torch_dispatch__ keeps detach / _to_copy / to); otherwise the optimised constructor formats scale and zero-point a second time",
     "C15.R10": "the grouping helpers the optimised constructor and dequantizer rely on (ungroup before packing, group after unpacking) are inverse layouts (the rule of C02.R4)",
+    "C15.R13": "the AWQ representation survives flatten / unflatten: each AWQ tensor class is rebuilt as itself (a subclass with its own constructor does not inherit a reader that names its base) and its reader inverts its writer field by field (an Enum member is written by name / value and read through the Enum)",
     "C15.R11": "the packers widen before they shift: every `<<` in pack / pack_v2 applies to a value already cast to a 16/32/64-bit integer (a 4-bit code shifted by 4 in an int8 tensor - what v1 unpack returns - turns negative and sign-extends over the neighbouring lanes)",
     "C15.R12": "the packing functions are pure: no module-level state is written or consulted by pack / unpack / pack_v2 / unpack_v2 / reverse_awq_order (a cached index makes the result depend on the widths seen before)",
     "C15.R7": "create() selects the optimised class exactly under the kernel's preconditions; moves across device types and serialization convert back; every subclass overrides qbits_tensor",
@@ -86,6 +87,27 @@ def run(chk):
     selection(chk)
     wrapper(chk, awq_mi)
     rewrap_ops(chk, awq_mi)
+    from .. import serial
+    awq_classes = [c for lst in repo.classes.values() for c in lst if c.name.startswith("AWQ")]
+    lost = {c.name for c, *_ in serial.inherited_readers(repo)}
+    for c in awq_classes:
+        if c.own("__init__") is not None or c.own("__new__") is not None:
+            chk.require("C15.R13", f"{c.mod.rel}:{c.node.lineno}", c.name not in lost, f"{c.name} is rebuilt as a {c.name} by the __tensor_unflatten__ it resolves to", c.name, "reader inherited from a base that rebuilds the base class",
+                        "an AWQ tensor taken through flatten / unflatten: it comes back as a standard QBitsTensor wrapping AWQ-packed codes, transposed scales and scaled negated zero-points (128x128: silently wrong values)")
+    for c in awq_classes:
+        if serial._meth(repo, c, "__tensor_flatten__") is None:
+            continue
+        for suffix, verdict, line, tag, detail, witness in serial.analyse_class(repo, c):
+            site = f"{c.mod.rel}:{line}"
+            if verdict == "ok":
+                chk.ok("C15.R13", site, detail)
+            elif verdict == "bad":
+                chk.bad("C15.R13", site, c.name, tag, detail, witness)
+            elif verdict == "note":
+                chk.ok("C15.R13", site, "NOTE: " + detail)
+            else:
+                chk.unknown("C15.R13", site, detail)
+    chk.floor("C15.R13", len(awq_classes), 2, "AWQ tensor classes")
     widen_before_shift(chk, awq_mi)
     pure_layout(chk, awq_mi)
     from .c04_layout import group_ungroup
